@@ -151,9 +151,26 @@ class World:
             d += 1
         return d
 
+    def random_bulk(self, b):
+        """a bulk setter: the whole list of references / sources / members of one kind replaced in one call"""
+        r = self.rng
+        q = r.random()
+        if q < 0.35:
+            h = self.pick(['T', 'M'], block=b.slot); rel = 'ref'; pool = self.alive('A', block=b.slot)
+        elif q < 0.6:
+            h = self.pick(['A', 'D', 'T', 'M', 'G'], block=b.slot); rel = 'src'; pool = self.alive('O', block=b.slot)
+        else:
+            h = self.pick('G', block=b.slot); k = r.choice('ADTM'); rel = REL_OF[k]; pool = self.alive(k, block=b.slot)
+        if not h: return
+        pool = list(pool); r.shuffle(pool)
+        sel = pool[:r.choice([0, 1, 1, 2, 3, 5])]
+        if sel and r.random() < 0.25: sel.append(r.choice(sel))     # an entity named twice
+        self.emit('setlinks %s %s %s' % (rel, h.slot, lst([e.slot for e in sel])))
+
     def random_link(self, b):
         r = self.rng
         q = r.random()
+        if r.random() < 0.12: return self.random_bulk(b)
         if q < 0.3:
             t = self.pick(['T', 'M'], block=b.slot); a = self.pick('A', block=b.slot)
             if t and a: self.emit('link ref %s %s' % (t.slot, self.link_key(a)))
